@@ -283,7 +283,7 @@ func runC02(c *vf.Ctx) {
 			pos2 := r.Intn(L)
 			t2 := e.chain.Cids[headIdx-pos2]
 			e.front.Plan = mk(t2, rand.New(rand.NewSource(r.Int63())))
-			delete(dst.Mem.Bag, cidlink.Link{Cid: t2}.Binary())
+			dst.Mem.Delete(cidlink.Link{Cid: t2}.Binary())
 			if !announced {
 				_, err = s.SyncAdChain(context.Background(), pi, dagsync.WithAdsResync(true))
 				phases = append(phases, fmt.Sprintf("resync with request for block %d corrupted: err=%v fault-hit=%d", headIdx-pos2, err, hit))
